@@ -10,6 +10,8 @@ for p in props:
     f = os.path.join(ROOT, "checks", "meta", p + ".json")
     if not os.path.exists(f) or not os.path.exists(os.path.join(ROOT, "checks", p.lower() + ".py")):
         continue
+    if p not in open(os.path.join(ROOT, "checks", "meta", "claimed.txt")).read().split():
+        continue   # integrated (reviewed, passing on the unchanged tree) properties only
     m = json.load(open(f))
     claimed.add(p)
     checks.append({
